@@ -45,6 +45,8 @@ func analyseParserLoop(c *core.Ctx, want map[string]bool) {
 		}
 		return
 	}
+	// the scan loop itself may live in an unexported worker that ParseStreamCallback hands its arguments to
+	psc = parserLoopFunc(psc)
 	fname := core.FuncName(psc)
 	// the callback parameter and the node phi
 	var cbParam *ssa.Parameter
@@ -257,6 +259,9 @@ func analyseParserLoop(c *core.Ctx, want map[string]bool) {
 		return nil
 	}
 	x.Hooks.Decide = func(x *absint.Exec, s *absint.State, atom string, outs []string) {
+		if strings.HasPrefix(atom, "nil(§cberr#") && len(outs) == 1 {
+			s.SetData("cberrnil", atom+"="+outs[0]) // what the path knows about the error the callback handed back last
+		}
 		base := atom
 		if i := strings.IndexByte(atom, '('); i > 0 {
 			base = atom[:i]
@@ -501,7 +506,9 @@ func analyseParserLoop(c *core.Ctx, want map[string]bool) {
 				report("C08-R1", "producer", pos, "the callback is invoked with both a record (%s) and an error (%s): consumers test the error first and would drop the record, or dereference a nil record", nodeA.Key(), errA.Key())
 				addEv(s, "mixed")
 			}
-			return &absint.Tuple{Elems: []absint.Value{x.Fresh(s, "cbstop"), x.Fresh(s, "cberr")}}, true
+			cbe := x.Fresh(s, "cberr")
+			s.SetData("lastcberr", cbe.Key())
+			return &absint.Tuple{Elems: []absint.Value{x.Fresh(s, "cbstop"), cbe}}, true
 		case isFunc(callee, core.LibPath, "NewParserNode"):
 			if tk := absint.NewTerm("call:strings.Trim", absint.Sym{Name: strings.TrimPrefix(s.Data["line"], "§")}, trimSet).Key(); len(args) == 1 && args[0].Key() != tk {
 				report("C04-R1", "heading", pos, "the new record's heading is %s, not the trimmed line", args[0].Key())
@@ -608,7 +615,10 @@ func analyseParserLoop(c *core.Ctx, want map[string]bool) {
 		switch d["scan"] {
 		case "":
 			// returned from inside the loop: only after a callback asked to stop
-			if d["stop"] != "T" {
+			if d["stop"] != "T" && d["ev"] == "" && !isNilConst(ret) && nilnessOf(x, tm.State, ret) == "nonnil" {
+				// the parser gives up with an error of its own before doing anything with the line (a cancelled context):
+				// a reported failure, not a silent loss
+			} else if d["stop"] != "T" {
 				report("C04-R1", "early-return", pos, "the parser returns from inside the scan loop although no callback asked it to stop (events [%s])", d["ev"])
 			} else {
 				checkIteration(x, tm.State, pos, true)
@@ -637,7 +647,12 @@ func analyseParserLoop(c *core.Ctx, want map[string]bool) {
 				case "T":
 					if d["ev"] != "flush" {
 						report("C04-R2", "last-record", pos, "at end of input with a record open the parser performs [%s] instead of delivering that record exactly once", d["ev"])
+					} else if isNilConst(ret) && d["cberrnil"] == "nil("+d["lastcberr"]+")=nil" {
+						// return nil on the path on which the callback's error is known to be nil
 					} else if !strings.Contains(ret.Key(), "cberr") {
+						if os.Getenv("HRDEBUG") != "" {
+							fmt.Fprintf(os.Stderr, "last-record: lastcberr=%q possible=%v pc=%s\n", d["lastcberr"], x.Possible(tm.State, "nil("+d["lastcberr"]+")"), x.Valuation(tm.State))
+						}
 						report("C04-R2", "last-record", pos, "the error returned by the callback for the last record is dropped (parser returns %s)", ret.Key())
 					}
 				case "F":
@@ -926,4 +941,51 @@ func absConstString(v absint.Value) (string, bool) {
 		return constant.StringVal(c.V), true
 	}
 	return "", false
+}
+
+// parserLoopFunc: fn itself when it contains a loop headed by Scanner.Scan(); otherwise the function of the same
+// package it calls (directly, or through one more call) that does — a thin exported wrapper over a worker. fn when
+// there is none.
+func parserLoopFunc(fn *ssa.Function) *ssa.Function {
+	hasScanLoop := func(g *ssa.Function) bool {
+		for _, b := range g.Blocks {
+			for _, in := range b.Instrs {
+				if call, ok := in.(*ssa.Call); ok && isMethod(core.Callee(&call.Call), "bufio", "Scanner", "Scan") && isLoopHead(b) {
+					return true
+				}
+			}
+		}
+		return false
+	}
+	if fn == nil || hasScanLoop(fn) {
+		return fn
+	}
+	var found []*ssa.Function
+	seen := map[*ssa.Function]bool{fn: true}
+	var visit func(g *ssa.Function, depth int)
+	visit = func(g *ssa.Function, depth int) {
+		for _, b := range g.Blocks {
+			for _, in := range b.Instrs {
+				ci, ok := in.(ssa.CallInstruction)
+				if !ok {
+					continue
+				}
+				cal := core.Callee(ci.Common())
+				if cal == nil || seen[cal] || len(cal.Blocks) == 0 || core.FnPkgPath(cal) != core.FnPkgPath(fn) {
+					continue
+				}
+				seen[cal] = true
+				if hasScanLoop(cal) {
+					found = append(found, cal)
+				} else if depth > 0 {
+					visit(cal, depth-1)
+				}
+			}
+		}
+	}
+	visit(fn, 1)
+	if len(found) == 1 {
+		return found[0]
+	}
+	return fn
 }
